@@ -448,6 +448,15 @@ func (e *Env) signServerOnce(r *Req) (err error) {
 	return nil
 }
 
+// RepoDir is the relic tree under test: /repo, unless the driver was pointed at a scratch
+// copy (VERIF_REPO; used only to try seeded changes without touching /repo).
+func RepoDir() string {
+	if d := os.Getenv("VERIF_REPO"); d != "" {
+		return d
+	}
+	return "/repo"
+}
+
 // BuildBinary builds the relic binary from /repo's working tree (once per process).
 func (e *Env) BuildBinary() error {
 	e.mu.Lock()
@@ -463,7 +472,7 @@ func (e *Env) BuildBinary() error {
 	}
 	out := filepath.Join(e.Dir, "relic-bin")
 	cmd := exec.Command("go", "build", "-tags", "verif", "-o", out, ".")
-	cmd.Dir = "/repo"
+	cmd.Dir = RepoDir()
 	cmd.Env = append(os.Environ(), "GOFLAGS=-mod=mod", "GOPROXY=off", "GOSUMDB=off", "GOTOOLCHAIN=local")
 	if blob, err := cmd.CombinedOutput(); err != nil {
 		return fmt.Errorf("building relic: %v\n%s", err, blob)
